@@ -243,6 +243,22 @@ func main() {
 		bw := bufio.NewWriterSize(os.Stdout, 1<<20)
 		w := &progressWriter{w: bw, last: time.Now()}
 		go w.watch(bw)
+		defer func() {
+			// a panic that escapes a recorder comes from a call into the library under test whose panics that recorder
+			// does not expect (recorders that drive panicking inputs on purpose recover themselves): a verdict (exit 3)
+			// when library frames are on the panicking stack, machinery trouble otherwise
+			if r := recover(); r != nil {
+				w.mu.Lock()
+				bw.Flush()
+				st := string(debug.Stack())
+				if strings.Contains(st, "github.com/aclements/go-moremath/") {
+					fmt.Fprintf(os.Stderr, "LIBRARY-PANIC after recorded event #%d: %v\nlast event written: %s\n%s\n", w.count, r, w.tail, st)
+					os.Exit(3)
+				}
+				fmt.Fprintf(os.Stderr, "binder: recorder panicked: %v\n%s\n", r, st)
+				os.Exit(2)
+			}
+		}()
 		if err := f.record(w, os.Args[3:]); err != nil {
 			bw.Flush()
 			fmt.Fprintln(os.Stderr, "binder:", err)
